@@ -259,7 +259,63 @@ def correspondence(ctx, model_ok):
                 viol(f"DimensionGroup({t2}, <group {sorted(g1.names)} of {t1}>) = {got if got == 'KeyError' else sorted(got)}, but building it from "
                      f"the same names gives {want if want == 'KeyError' else sorted(want)}", f"cross-universe:{t1}:{t2}:{sorted(g1.names)}",
                      {"kind": "cross-universe", "from": t1, "to": t2, "names": sorted(g1.names)})
+            # groups of two universe versions compared with each other: ==, hash, <=, >=, isdisjoint agree with the name sets
+            if got != "KeyError" and want != "KeyError":
+                g2 = DimensionGroup(u2, set(g1.names))
+                n1, n2 = set(g1.names), set(g2.names)
+                problems = []
+                if (g1 == g2) != (n1 == n2) or (g2 == g1) != (n1 == n2):
+                    problems.append(f"== is {g1 == g2}, the name sets are {'equal' if n1 == n2 else 'different'}")
+                if g1 == g2 and hash(g1) != hash(g2):
+                    problems.append("the groups are equal but their hashes differ")
+                if (g1 <= g2) != (n1 <= n2) or (g1 >= g2) != (n1 >= n2):
+                    problems.append("<= / >= disagree with the name sets")
+                if g1.isdisjoint(g2) != n1.isdisjoint(n2):
+                    problems.append("isdisjoint disagrees with the name sets")
+                ctx.count("cross-universe-comparisons")
+                if problems:
+                    viol(f"group {sorted(n1)} (required {list(g1.required)}) of universe {t1} and group {sorted(n2)} (required {list(g2.required)}) of {t2}: "
+                         + "; ".join(problems), "cross-universe-equal-groups-hash-differently" if problems == ["the groups are equal but their hashes differ"]
+                         else f"cross-universe-compare:{t1}:{t2}:{sorted(n1)}", {"kind": "cross-universe", "from": t1, "to": t2, "names": sorted(n1)})
     ctx.count("cross-universe-pairs", len(unis) * (len(unis) - 1))
+
+    # ---- "the same object however it was spelled", also when several threads build a not-yet-cached group at the same moment
+    import threading
+
+    from lsst.daf.butler import DimensionConfig, DimensionUniverse
+
+    old_switch = sys.getswitchinterval()
+    sys.setswitchinterval(1e-6)
+    try:
+        # a universe object of its own (another namespace than the shared default), so that none of its groups is cached yet
+        cfg = DimensionConfig()
+        cfg["namespace"] = "verif_threads"
+        tu = DimensionUniverse(cfg)
+        tdims = [d for d in tu.dimensions.names if d not in tu.skypix_dimensions.names]
+        split = 0
+        for n_round in range(120 if ctx.quick() else 1500):
+            names = [d for d in tdims if rng.random() < 0.35]
+            barrier, out = threading.Barrier(8), [None] * 8
+
+            def build(k, names=names, barrier=barrier, out=out):
+                barrier.wait()
+                out[k] = tu.conform(names if k % 2 else list(reversed(names)))
+
+            ts = [threading.Thread(target=build, args=(k,)) for k in range(8)]
+            for t_ in ts:
+                t_.start()
+            for t_ in ts:
+                t_.join()
+            ctx.evaluations += 1
+            if any(o is not out[0] for o in out) or tu.conform(names) is not out[0]:
+                split += 1
+                viol(f"8 threads building the group of {names} at the same moment got {len({id(o) for o in out})} different objects "
+                     f"(and the universe now hands out {'one of them' if any(tu.conform(names) is o for o in out) else 'yet another'})",
+                     "threads-intern", {"kind": "threads", "names": names})
+                break
+        ctx.count("thread-interning-rounds", n_round + 1)
+    finally:
+        sys.setswitchinterval(old_switch)
 
     for i in range(0, len(req), max(1, len(req) // 6)):
         ctx.sample({"request": req[i], "implementation": impl[i]})
